@@ -90,6 +90,12 @@ def load_findings(prop):
 def _child(fn, task, conn, timeout_s):
     try:
         faulthandler.dump_traceback_later(timeout_s, exit=True)
+        try:
+            import resource
+            lim = int(os.environ.get('LSIM_MEM_GB', '6')) * (1 << 30)
+            resource.setrlimit(resource.RLIMIT_AS, (lim, lim))      # a runaway allocation raises MemoryError instead of being OOM-killed
+        except Exception:
+            pass
         res = fn(task)
         conn.send(('ok', res))
     except BaseException:
